@@ -640,8 +640,7 @@ def scanner_contracts(tier):
                      'comparisons, list append/pop/[-1], "".join and f(*xs) '
                      'per Python semantics (contracts/textmodel.py)',
                      'the result of the reader is the fold of the verified '
-                     'steps (the loop itself); exact pairing of doubled '
-                     'quotes inside a string literal is stated as a necessary '
-                     'condition only (the exact regular condition is checked '
-                     'by the bounded native check)']),
+                     'steps (the loop itself); the doubled-quote escape is '
+                     'witnessed by a ghost pairing array the contract '
+                     'updates']),
     ]
